@@ -78,7 +78,8 @@ func TestC05(t *testing.T) {
 			}
 		}
 		for _, e := range host.Engines {
-			results, _ := prog.Run(nil, hist, host.Options{Engine: e})
+			// cadence's per-operation atree validation is quadratic in the container size: keep it for small values only
+			results, _ := prog.Run(nil, hist, host.Options{Engine: e, NoAtreeValidation: info.MaxSize > 20})
 			for i, r := range results {
 				got := virhost.Observe(r)
 				if got.Fail != "" {
